@@ -35,8 +35,9 @@ VARIABLES alive,      \* set of actor ids whose interpreter is running
           sends,      \* owner -> (send id -> n): the _scheduled_sends registry
           born,       \* actor id -> creation order (dict insertion order of the maps)
           orphans,    \* bag (sequence) of ids of interpreters that keep running after their id was re-used
+          bctr,       \* number of interpreters created so far (born[id] = incarnation of the actor holding id)
           now, ctr, sctr, warn, lastOp, stoppedRoot
-avars == <<alive, kids, par, segs, src, sys, rec, pend, sends, born, orphans, now, ctr, sctr, warn, lastOp, stoppedRoot>>
+avars == <<alive, kids, par, segs, src, sys, rec, pend, sends, born, orphans, bctr, now, ctr, sctr, warn, lastOp, stoppedRoot>>
 
 Root == "m"
 NONE == "NONE"
@@ -44,7 +45,7 @@ NONE == "NONE"
 Init == /\ alive = {Root} /\ kids = (Root :> {}) /\ par = (Root :> NONE) /\ segs = (Root :> {})
         /\ src = <<>> /\ sys = <<>>
         /\ rec = (Root :> <<>>) /\ pend = {} /\ sends = (Root :> <<>>) /\ born = (Root :> 0) /\ orphans = <<>>
-        /\ now = 0 /\ ctr = 1 /\ sctr = 1 /\ warn = 0 /\ lastOp = [op |-> "init"] /\ stoppedRoot = FALSE
+        /\ bctr = 1 /\ now = 0 /\ ctr = 1 /\ sctr = 1 /\ warn = 0 /\ lastOp = [op |-> "init"] /\ stoppedRoot = FALSE
 
 --------------------------------------------------------------------------
 \* _resolve_actor_target from actor `a` over a threaded state record; NONE = unresolved / ambiguous
@@ -80,7 +81,7 @@ SpawnIn(st, a, key, eid, sid) ==
       \* re-used explicit id: the child that held it is stopped (with its subtree) before the new one is registered
       st0 == IF id \in st.alive THEN StopTree(st, id) ELSE st
       st1 == [st0 EXCEPT !.alive = @ \cup {id},
-                        !.born = Ext(@, id, st.ctr + st.sctr + Cardinality(DOMAIN st.born)),
+                        !.born = Ext(@, id, st.bctr), !.bctr = @ + 1,
                         !.kids = Ext(Ext(@, a, @[a] \cup {id}), id, {}),
                         !.par = Ext(@, id, a), !.segs = Ext(@, id, sg),
                         !.src = Ext(@, id, key),
@@ -105,10 +106,10 @@ Deliver(st, to, ev, fuel) ==
           ELSE st1
 
 Pack == [alive |-> alive, kids |-> kids, par |-> par, segs |-> segs, src |-> src, sys |-> sys, rec |-> rec,
-         pend |-> pend, sends |-> sends, born |-> born, orphans |-> orphans, ctr |-> ctr, sctr |-> sctr, warn |-> warn]
+         pend |-> pend, sends |-> sends, born |-> born, orphans |-> orphans, bctr |-> bctr, ctr |-> ctr, sctr |-> sctr, warn |-> warn]
 Commit(st, op, t) ==
   /\ alive' = st.alive /\ kids' = st.kids /\ par' = st.par /\ segs' = st.segs /\ src' = st.src /\ sys' = st.sys /\ rec' = st.rec /\ pend' = st.pend
-  /\ sends' = st.sends /\ born' = st.born /\ orphans' = st.orphans /\ ctr' = st.ctr /\ sctr' = st.sctr /\ warn' = st.warn /\ now' = t /\ lastOp' = op
+  /\ sends' = st.sends /\ born' = st.born /\ orphans' = st.orphans /\ bctr' = st.bctr /\ ctr' = st.ctr /\ sctr' = st.sctr /\ warn' = st.warn /\ now' = t /\ lastOp' = op
   /\ stoppedRoot' = (stoppedRoot \/ op.op = "stop")
 
 --------------------------------------------------------------------------
@@ -124,7 +125,7 @@ DoOp(o) ==
                  LET n == st0.sctr
                      old == IF o.sid # NONE /\ o.sid \in DOMAIN st0.sends[Root] THEN {st0.sends[Root][o.sid]} ELSE {}
                      st1 == [st0 EXCEPT !.pend = {p \in @ : ~(p.owner = Root /\ p.n \in old)}
-                                                \cup {[owner |-> Root, sid |-> o.sid, to |-> t, ev |-> o.ev, due |-> now + o.delay, n |-> n]},
+                                                \cup {[owner |-> Root, sid |-> o.sid, to |-> t, inc |-> st0.born[t], ev |-> o.ev, due |-> now + o.delay, n |-> n]},
                                         !.sends[Root] = IF o.sid = NONE THEN @
                                                         ELSE [x \in DOMAIN @ \cup {o.sid} |-> IF x = o.sid THEN n ELSE @[x]],
                                         !.sctr = @ + 1]
@@ -145,15 +146,21 @@ DoOp(o) ==
 Step == /\ ~stoppedRoot /\ Cardinality(alive) <= MaxActors
         /\ \E i \in 1..Len(Ops) : DoOp(Ops[i])
 
-\* virtual time: the earliest pending delayed send is delivered (its task held a reference to the actor)
+\* virtual time moves to the earliest deadline: every delayed send due then is delivered, in registration order.
+\* A send's task holds a reference to the ACTOR it resolved (not to its id): if that interpreter has been stopped
+\* - also when another actor has taken over its id since - nothing is delivered.
+RECURSIVE Fire(_, _)
+Fire(st, due) ==
+  IF due = {} THEN st
+  ELSE LET p == CHOOSE x \in due : \A y \in due : x.n <= y.n
+           st0 == [st EXCEPT !.pend = {q \in @ : q.n # p.n},
+                             !.sends[p.owner] = [x \in {y \in DOMAIN @ : @[y] # p.n} |-> @[x]]]
+           same == p.to \in DOMAIN st0.born /\ st0.born[p.to] = p.inc
+       IN Fire(IF same THEN Deliver(st0, p.to, p.ev, 4) ELSE st0, {q \in due \ {p} : q.n \in {r.n : r \in st0.pend}})
 Advance ==
   /\ pend # {}
   /\ LET d == CHOOSE x \in {p.due : p \in pend} : \A y \in {p.due : p \in pend} : x <= y
-         due == {p \in pend : p.due = d}
-         p == CHOOSE x \in due : \A y \in due : x.n <= y.n
-         st0 == [Pack EXCEPT !.pend = @ \ {p},
-                             !.sends[p.owner] = [x \in {y \in DOMAIN @ : @[y] # p.n} |-> @[x]]]
-     IN Commit(Deliver(st0, p.to, p.ev, 4), [op |-> "advance", name |-> "advance"], d)
+     IN Commit(Fire(Pack, {p \in pend : p.due = d}), [op |-> "advance", name |-> "advance"], d)
 
 \* stop() of the root: children stopped recursively, children map cleared, tasks cancelled
 StopRoot ==
@@ -165,7 +172,7 @@ StopRoot ==
 Next == Step \/ Advance \/ StopRoot
 Spec == Init /\ [][Next]_avars
 Bound == TLCGet("level") <= MaxDepth
-View == <<alive, kids, src, sys, rec, pend, sends, orphans, now, stoppedRoot>>
+View == <<alive, kids, src, sys, rec, pend, sends, born, orphans, now, stoppedRoot>>
 Resolve(a, spec) == ResolveIn(Pack, a, spec)
 Desc(a) == DescIn(Pack, a)
 
@@ -213,7 +220,11 @@ AProj(al, kd, sy, rc, pn) ==
    pend |-> LET RECURSIVE Q(_)
                 Q(S) == IF S = {} THEN <<>> ELSE LET x == CHOOSE y \in S : \A z \in S : y.n <= z.n
                                                  IN <<<<x.sid, x.to, x.ev, x.due>>>> \o Q(S \ {x})
-            IN Q(pn)]
+            IN Q(pn),
+   \* registration numbers of the pending sends: not compared with the engine, but they keep states apart that
+   \* differ in how many sends were registered before (a superseded send is being torn down inside the engine),
+   \* so that the replay reaches each of them along its own history
+   gen |-> {p.n : p \in pn}]
 EmitA == PrintT(ToJson([from |-> AProj(alive, kids, sys, rec, pend), step |-> lastOp',
                         to |-> AProj(alive', kids', sys', rec', pend'), now |-> now',
                         prop |-> [C15 |-> OnA("C15", C15Step)]]))
